@@ -63,7 +63,7 @@ for m in sorted(glob.glob(os.path.join(V, "seeded", "*", "meta.json"))):
         if os.path.exists(xl) and not fhit:
             xh = [v for v in verdict(xl) if "VIOLATION with concrete replay" in v]
             if xh: FIRST[name] += "; caught by another property's check: " + xh[0].split(":")[0]
-    if k[:3] in ("r3-", "r4-", "r5-", "r6-"):
+    if k[:3] in ("r3-", "r4-", "r5-", "r6-", "r7-"):
         fl = os.path.join(V, "notes", "seedlogs", f"{k[:2]}first_{name}.log")
         if os.path.exists(fl):
             fr = verdict(fl)
@@ -76,9 +76,12 @@ for m in sorted(glob.glob(os.path.join(V, "seeded", "*", "meta.json"))):
     if name == "C07-2": det = "bin/check C11: VIOLATION with concrete replay, monitor kind not-durable-at-prepare:mc1 (restore after the phase-1 close request)"
     if name in ("C15-2b", "C11-1b"): det = "bin/check C15: VIOLATION channel-id-reuse; bin/check C11: VIOLATION not-durable-at-prepare:forget (both with concrete replays)"
     d["detected_by"] = det
-    d["first_run"] = FIRST.get(name, "caught")
+    # (no log of a first run and nothing recorded earlier: say so instead of defaulting to "caught")
+    d["first_run"] = FIRST.get(name) or d.get("first_run") or ("caught" if k[0] != "r" or k[:3] == "r2-" else "not recorded separately (the first run is the builder's re-run in the Final check column)")
     json.dump(d, open(m, "w"), indent=1)
-    rows.append(f"| {name} | {(d.get('summary') or '')[:230].replace('|','/')} | {(d.get('needs_to_manifest') or '')[:200].replace('|','/')} | {d['first_run']} | {det} |")
+    last = d.get("now_round9") or d.get("now")      # what the check says at the latest re-run recorded by a builder
+    fin = (str(last) + (" — " + str(det) if det and str(det) not in str(last) else "")) if last else det
+    rows.append(f"| {name} | {(d.get('summary') or '')[:230].replace('|','/')} | {(d.get('needs_to_manifest') or '')[:200].replace('|','/')} | {d['first_run']} | {str(fin).replace('|','/')[:400]} |")
 table = ("| Seed | Change | Needs | First run of the check | Final check |\n|------|--------|-------|------------------------|-------------|\n" + "\n".join(rows))
 p = os.path.join(V, "DESIGN.md")
 s = open(p).read()
@@ -89,7 +92,8 @@ head = ("## 7. Seeded breaking changes and the checks that catch them\n\n"
         "fails with it and passes without it. Confirmed by `bin/seedconfirm` (demo without/with patch, affected-crate\n"
         "suite with patch) and run against the checks by `bin/seedtest` in a scratch worktree. 'First run' is what the\n"
         "check as it existed then did; every miss was turned into a generator/monitor extension (never a special case\n"
-        "for the patch), after which all seeds are caught with a concrete replay. Generated by `bin/seedmeta.py`.\n\n")
+        "for the patch). 'Final check' is what the check says at the latest recorded re-run (`replay:<monitor kind>` = concrete\n"
+        "failing input, `break-only` = only a proof obligation / the correspondence / the translator noticed, `missed`). Generated by `bin/seedmeta.py`.\n\n")
 s = s[:i] + head + table + "\n"
 open(p, "w").write(s)
 print(len(rows), "seeds")
